@@ -326,6 +326,8 @@ pub struct Writer<W: io::Write> {
     inner: csv::Writer<W>,
     delimiter: char,
     terminator: String,
+    /// Separates several values of one key (`None`: one `key value` entry per value).
+    value_delimiter: Option<String>,
 }
 
 impl Writer<fs::File> {
@@ -339,7 +341,7 @@ impl Writer<fs::File> {
 impl<W: io::Write> Writer<W> {
     /// Write to a given writer.
     pub fn new(writer: W, fileformat: GffType) -> Self {
-        let (delim, termi, _) = fileformat.separator();
+        let (delim, termi, vdelim) = fileformat.separator();
 
         Writer {
             inner: csv::WriterBuilder::new()
@@ -348,6 +350,11 @@ impl<W: io::Write> Writer<W> {
                 .from_writer(writer),
             delimiter: delim as char,
             terminator: String::from_utf8(vec![termi]).unwrap(),
+            value_delimiter: if vdelim == 0u8 {
+                None
+            } else {
+                Some((vdelim as char).to_string())
+            },
         }
     }
 
@@ -356,8 +363,14 @@ impl<W: io::Write> Writer<W> {
         let attributes = if !record.attributes.is_empty() {
             record
                 .attributes
-                .iter()
-                .map(|(a, b)| format!("{}{}{}", a, self.delimiter, b))
+                .iter_all()
+                .flat_map(|(a, values)| match &self.value_delimiter {
+                    Some(vd) => vec![format!("{}{}{}", a, self.delimiter, values.join(vd))],
+                    None => values
+                        .iter()
+                        .map(|b| format!("{}{}{}", a, self.delimiter, b))
+                        .collect(),
+                })
                 .join(&self.terminator)
         } else {
             "".to_owned()
